@@ -13,6 +13,7 @@
 import Fbr.Lemmas.SrvDecode
 import Fbr.SrvSpec
 import Fbr.Gen.Server
+import Fbr.Lemmas.SrvPairs
 
 namespace Fbr.Thm.C02
 open Fbr.Srv Fbr.Wire
@@ -583,6 +584,76 @@ theorem batch_forget_exact_one (cfg : Cfg) (fs : Call → Ans) (h : Hdr) (R : Re
   simp only [mkCall, call, List.cons_append, List.nil_append, List.range_one, List.map_cons, List.map_nil,
     Nat.mul_zero, Nat.zero_add]
   wire_norm
+
+/-- BATCH_FORGET with ANY number of items: every (node id, count) pair reaches the file system,
+    in order, with exact values (the only bound is the server's own size limit) -/
+theorem batch_forget_exact (cfg : Cfg) (fs : Call → Ans) (h : Hdr) (R : Req fs h) (hop : h.op = 42)
+    (dummy : Nat) (items : List (Nat × Nat)) (h1 : dummy < 2 ^ 32)
+    (hb : ∀ p ∈ items, p.1 < 2 ^ 64 ∧ p.2 < 2 ^ 64)
+    (hn : items.length * 16 ≤ MAX_BUFFER_SIZE + BUFFER_HEADER_SIZE - 8 - IN_HDR) (trail : Bytes) :
+    (handle cfg fs (encHdr h ++ (le32 items.length ++ le32 dummy ++ encPairs items ++ trail))).calls =
+      [remapOf h, call fs h "batch_forget" [.pairs items]] := by
+  have hn32 : items.length < 2 ^ 32 := by
+    unfold MAX_BUFFER_SIZE BUFFER_HEADER_SIZE IN_HDR at hn; omega
+  rw [handle_reaches_handler cfg fs h R.wf _ R.len R.remapOk, hop]
+  unfold handleBody
+  simp only
+  rw [withObj_ok _ _ _ _ _ (by simp only [List.length_append, le32_length]; omega)]
+  have hc : u32At (List.take 8 (le32 items.length ++ le32 dummy ++ encPairs items ++ trail)) 0 = items.length := by
+    wire_norm
+  have hd : (le32 items.length ++ le32 dummy ++ encPairs items ++ trail).drop 8 = encPairs items ++ trail := by
+    rw [show le32 items.length ++ le32 dummy ++ encPairs items ++ trail =
+          (le32 items.length ++ le32 dummy) ++ (encPairs items ++ trail) by simp,
+        show (8 : Nat) = (le32 items.length ++ le32 dummy).length by simp, List.drop_left]
+  simp only [List.append_assoc] at hc hd ⊢
+  simp only [hc, hd]
+  rw [if_neg (by omega), if_neg (by simp only [List.length_append, encPairs_length]; omega)]
+  simp only [mkCall, call, List.cons_append, List.nil_append]
+  rw [pairs_decode items hb trail]
+
+/-- SETUPMAPPING (virtio-fs with a DAX window): all five fields -/
+theorem setupmapping_exact (cfg : Cfg) (fs : Call → Ans) (h : Hdr) (R : Req fs h) (hop : h.op = 48)
+    (hvu : cfg.hasVuReq = true)
+    (fh foffset len flags moffset : Nat) (h1 : fh < 2 ^ 64) (h2 : foffset < 2 ^ 64) (h3 : len < 2 ^ 64)
+    (h4 : flags < 2 ^ 64) (h5 : moffset < 2 ^ 64) (trail : Bytes) :
+    (handle cfg fs (encHdr h ++ (le64 fh ++ le64 foffset ++ le64 len ++ le64 flags ++ le64 moffset ++ trail))).calls =
+      [remapOf h, call fs h "setupmapping" [.n h.nodeid, .n fh, .n foffset, .n len, .n flags, .n moffset]] := by
+  rw [handle_reaches_handler cfg fs h R.wf _ R.len R.remapOk, hop]
+  unfold handleBody
+  simp only [hvu, Bool.not_true, Bool.false_eq_true, if_false]
+  rw [withObj_ok _ _ _ _ _ (by simp only [List.length_append, le64_length]; omega)]
+  simp only [simple_calls, mkCall, call, List.cons_append, List.nil_append]
+  wire_norm
+
+/-- without a DAX window SETUPMAPPING / REMOVEMAPPING never reach the file system -/
+theorem mapping_needs_window (cfg : Cfg) (fs : Call → Ans) (h : Hdr) (R : Req fs h) (hop : h.op = 48 ∨ h.op = 49)
+    (hvu : cfg.hasVuReq = false) (body : Bytes) :
+    (handle cfg fs (encHdr h ++ body)).calls = [remapOf h] := by
+  rw [handle_reaches_handler cfg fs h R.wf _ R.len R.remapOk]
+  rcases hop with hop | hop <;> (rw [hop]; unfold handleBody; simp [hvu, errRes])
+
+/-- REMOVEMAPPING with ANY number of items: every (offset, length) pair, in order -/
+theorem removemapping_exact (cfg : Cfg) (fs : Call → Ans) (h : Hdr) (R : Req fs h) (hop : h.op = 49)
+    (hvu : cfg.hasVuReq = true) (items : List (Nat × Nat))
+    (hb : ∀ p ∈ items, p.1 < 2 ^ 64 ∧ p.2 < 2 ^ 64)
+    (hn : items.length * 16 ≤ MAX_BUFFER_SIZE) (trail : Bytes) :
+    (handle cfg fs (encHdr h ++ (le32 items.length ++ encPairs items ++ trail))).calls =
+      [remapOf h, call fs h "removemapping" [.n h.nodeid, .pairs items]] := by
+  have hn32 : items.length < 2 ^ 32 := by unfold MAX_BUFFER_SIZE at hn; omega
+  rw [handle_reaches_handler cfg fs h R.wf _ R.len R.remapOk, hop]
+  unfold handleBody
+  simp only [hvu, Bool.not_true, Bool.false_eq_true, if_false]
+  rw [withObj_ok _ _ _ _ _ (by simp only [List.length_append, le32_length]; omega)]
+  have hc : u32At (List.take 4 (le32 items.length ++ encPairs items ++ trail)) 0 = items.length := by
+    wire_norm
+  have hd : (le32 items.length ++ encPairs items ++ trail).drop 4 = encPairs items ++ trail := by
+    rw [show le32 items.length ++ encPairs items ++ trail = le32 items.length ++ (encPairs items ++ trail) by simp,
+        show (4 : Nat) = (le32 items.length).length by simp, List.drop_left]
+  simp only [List.append_assoc] at hc hd ⊢
+  simp only [hc, hd]
+  rw [if_neg (by omega), if_neg (by simp only [List.length_append, encPairs_length]; omega)]
+  simp only [simple_calls, mkCall, call, List.cons_append, List.nil_append]
+  rw [pairs_decode items hb trail]
 
 
 /-- IOCTL: handle, flags, command, the `in_size` input bytes and the output size -/
